@@ -244,6 +244,150 @@ def canon(fn: ast.AST) -> str:
     return norm(ast.fix_missing_locations(out))
 
 
+SCOPES = (ast.FunctionDef, ast.AsyncFunctionDef, ast.Lambda, ast.ListComp, ast.SetComp, ast.DictComp, ast.GeneratorExp)
+
+
+def _scope_bindings(scope: ast.AST) -> List[str]:
+    """Names bound directly in ``scope`` (in order of appearance), not those of nested scopes."""
+    out: List[str] = []
+
+    def add(n):
+        if n not in out:
+            out.append(n)
+
+    if isinstance(scope, (ast.FunctionDef, ast.AsyncFunctionDef, ast.Lambda)):
+        a = scope.args
+        for x in list(a.posonlyargs) + list(a.args) + ([a.vararg] if a.vararg else []) + list(a.kwonlyargs) + ([a.kwarg] if a.kwarg else []):
+            add(x.arg)
+        roots = scope.body if isinstance(scope.body, list) else [scope.body]
+    else:
+        roots = []
+        for g in scope.generators:
+            for n in ast.walk(g.target):
+                if isinstance(n, ast.Name):
+                    add(n.id)
+
+    def walk(n):
+        if isinstance(n, (ast.FunctionDef, ast.AsyncFunctionDef)):
+            add(n.name)
+            return
+        if isinstance(n, SCOPES):
+            return
+        if isinstance(n, ast.Name) and isinstance(n.ctx, (ast.Store, ast.Del)):
+            add(n.id)
+        if isinstance(n, ast.ExceptHandler) and n.name:
+            add(n.name)
+        for c in ast.iter_child_nodes(n):
+            walk(c)
+
+    for r in roots:
+        walk(r)
+    free = set()
+    for r in roots:
+        for n in ast.walk(r):
+            if isinstance(n, (ast.Global, ast.Nonlocal)):
+                free.update(n.names)
+    return [x for x in out if x not in free]
+
+
+class _ScopedAlpha:
+    """Scope-aware alpha-renaming.  ``rename(scope_index, position, old_name) -> new_name``."""
+
+    def __init__(self, root: ast.AST, keep_params_of_root: bool = True):
+        self.root = root
+        self.keep = keep_params_of_root
+        self.table: List[Tuple[int, str]] = []  # canonical id -> (scope serial, name)
+
+    def run(self, namer) -> ast.AST:
+        self.namer = namer
+        self.serial = 0
+        self._scope(self.root, [])
+        return self.root
+
+    def _scope(self, scope, stack):
+        names = _scope_bindings(scope)
+        if scope is self.root and self.keep and hasattr(scope, "args"):
+            a = scope.args
+            params = {x.arg for x in list(a.posonlyargs) + list(a.args) + list(a.kwonlyargs) + ([a.vararg] if a.vararg else []) + ([a.kwarg] if a.kwarg else [])}
+            names = [n for n in names if n not in params]
+        frame = {}
+        for n in names:
+            cid = len(self.table)
+            self.table.append((self.serial, n))
+            frame[n] = self.namer(cid, n)
+        self.serial += 1
+        stack = stack + [frame]
+        if isinstance(scope, (ast.FunctionDef, ast.AsyncFunctionDef, ast.Lambda)):
+            a = scope.args
+            for x in list(a.posonlyargs) + list(a.args) + list(a.kwonlyargs) + ([a.vararg] if a.vararg else []) + ([a.kwarg] if a.kwarg else []):
+                if x.arg in frame:
+                    x.arg = frame[x.arg]
+                x.annotation = None
+            for d in list(a.defaults) + [d for d in a.kw_defaults if d is not None]:
+                self._visit(d, stack[:-1])
+            body = scope.body if isinstance(scope.body, list) else [scope.body]
+            for st in body:
+                self._visit(st, stack)
+        else:
+            for f, v in ast.iter_fields(scope):
+                if isinstance(v, list):
+                    for x in v:
+                        if isinstance(x, ast.AST):
+                            self._visit(x, stack)
+                elif isinstance(v, ast.AST):
+                    self._visit(v, stack)
+
+    def _visit(self, n, stack):
+        if isinstance(n, (ast.FunctionDef, ast.AsyncFunctionDef)):
+            for fr in reversed(stack):
+                if n.name in fr:
+                    n.name = fr[n.name]
+                    break
+            n.returns = None
+            for d in n.decorator_list:
+                self._visit(d, stack)
+            self._scope(n, stack)
+            return
+        if isinstance(n, SCOPES):
+            self._scope(n, stack)
+            return
+        if isinstance(n, ast.Name):
+            for fr in reversed(stack):
+                if n.id in fr:
+                    n.id = fr[n.id]
+                    break
+            return
+        if isinstance(n, ast.ExceptHandler) and n.name:
+            for fr in reversed(stack):
+                if n.name in fr:
+                    n.name = fr[n.name]
+                    break
+        if isinstance(n, ast.AnnAssign):
+            n.annotation = ast.Name(id="T", ctx=ast.Load())
+        for c in ast.iter_child_nodes(n):
+            self._visit(c, stack)
+
+
+def canon_map(fn: ast.AST):
+    """(canon text, local names by canonical id).  Scope-aware: a name bound in two scopes is two variables.
+    The function's own parameters are part of its interface and keep their names."""
+    fn2 = copy.deepcopy(fn)
+    if isinstance(fn2, (ast.FunctionDef, ast.AsyncFunctionDef)):
+        fn2.decorator_list = []
+        fn2.returns = None
+        if fn2.body and isinstance(fn2.body[0], ast.Expr) and isinstance(fn2.body[0].value, ast.Constant) and isinstance(fn2.body[0].value.value, str):
+            fn2.body = fn2.body[1:] or [ast.Pass()]
+    sa = _ScopedAlpha(fn2)
+    sa.run(lambda cid, name: f"v{cid}")
+    return norm(ast.fix_missing_locations(fn2)), [n for _, n in sa.table]
+
+
+def alpha_rename(fn: ast.AST, new_names: List[str]) -> None:
+    """Rename, in place, the local with canonical id k to new_names[k] (scope-aware)."""
+    _ScopedAlpha(fn).run(lambda cid, name: new_names[cid] if cid < len(new_names) else name)
+    ast.fix_missing_locations(fn)
+
+
 def truth_table(expr: ast.AST, atom_of, n_atoms: int):
     """Evaluate a boolean expression (and/or/not over atoms) on every assignment of ``n_atoms`` atoms.
     ``atom_of(node)`` returns (index, polarity) for an atomic sub-expression or None.  Returns the tuple of results
